@@ -87,4 +87,27 @@ def ensureFinalNewline (p : List Byte) : List Byte :=
 def phase12 (bytes : List Byte) : List Byte :=
   convertUniversalChars (removeBackslashNewline (canonicalizeNewline (skipBOM (ensureFinalNewline bytes))))
 
+-- ------------------------------------------------------------------ vocabulary of the splice-transparency theorems
+
+/-- the UTF-8 byte-order mark -/
+def BOM : List Byte := [0xEF#8, 0xBB#8, 0xBF#8]
+
+/-- what `tokenize_file` has done when `remove_backslash_newline` starts (translation phase 1): final newline
+    (`read_file`), BOM skip, `canonicalize_newline` -/
+def phase1 (bytes : List Byte) : List Byte :=
+  canonicalizeNewline (skipBOM (ensureFinalNewline bytes))
+
+/-- the first physical line of a text, without its newline -/
+def firstLine (t : List Byte) : List Byte := t.takeWhile (· ≠ LF)
+
+/-- the literal at the start of the text is complete on the first line: the line does not end in a backslash
+    (`string_literal_end` steps over a newline that follows a backslash) and `read_char_literal`, which looks for the
+    closing quote with `strchr`, finds it before the newline -/
+def LiteralOnFirstLine (y : List Byte) : Prop :=
+  (firstLine y).getLast? ≠ some BSL ∧
+  ChibiVerif.Literals.lexLiteral (firstLine y ++ [LF]) ≠ .error .unclosedChar
+
+instance (y : List Byte) : Decidable (LiteralOnFirstLine y) := by
+  unfold LiteralOnFirstLine; infer_instance
+
 end ChibiVerif.Text
